@@ -111,6 +111,20 @@ def histories(tier):
     # does not exist -- the call must refuse, and whatever it does every equation written must stay satisfied
     for nm, st in (("eq", BIN("eq", R(0), R(1))), ("ne", BIN("ne", R(0), R(1))), ("assert_ne", {"op": "meth", "name": "assert_ne", "a": R(0), "args": [R(1)]})):
         H.append(("wrap/%s" % nm, [S(P + 5), S(5), st, BIN("mul", R(0), R(1)), VAL(R(3))]))
+    # closures: the body of a sub-circuit uses a wire of its CALLER that was not passed as an argument (secret or public, directly or
+    # in a nested call): the equation mixes two contexts -- the proving step must report it and write no per-function file that
+    # names a foreign wire
+    for (a, b) in ((3, 2), (-2, 5)):
+        for kind, mk in (("priv", S), ("pub", U)):
+            clo = [{"op": "item", "a": R(2), "i": 0}, BIN("mul", R(3), R(1))]
+            H.append(("closure/%s/%d,%d" % (kind, a, b), [S(a), mk(b), sub("clo", [R(0)], clo, R(4)), VAL(R(5))]))
+            # called twice (the second call alone would be consistent with the first)
+            clo2 = [{"op": "item", "a": R(6), "i": 0}, BIN("mul", R(7), R(1))]
+            H.append(("closure2/%s/%d,%d" % (kind, a, b), [S(a), mk(b), sub("clo", [R(0)], clo, R(4)), sub("clo", [R(5)], clo2, R(8)), VAL(R(9))]))
+        # the closure is over a wire of the OUTER sub-circuit, used in the inner one
+        inn = [{"op": "item", "a": R(4), "i": 0}, BIN("mul", R(5), R(3))]
+        outr = [{"op": "item", "a": R(2), "i": 0}, sub("cinner", [R(0)], inn, R(6)), BIN("add", R(7), R(3))]
+        H.append(("closurenested/%d,%d" % (a, b), [S(a), S(b), sub("couter", [R(1)], outr, R(8)), VAL(R(9))]))
     # a comparison inside a sub-circuit (uses the global constant one)
     cmpb = [{"op": "item", "a": R(1), "i": 0}, BIN("eq", R(2), {"c": 3})]
     H.append(("cmpinside/3", [S(3), sub("h", [R(0)], cmpb, R(2)), {"op": "peek", "a": {"c": 0}}]))
@@ -217,6 +231,7 @@ def run_one(args):
             "digests": digests, "rnd1": rnd1 or {"_": {"_": 0}}, "calls": out["calls"], "npub": npub,
             "proved_split": "*** qaptools subroutines:" in out["stderr"] and "Inconsistent" not in out["prove_err"] and not out["prove_err"].startswith("ValueError"),
             "inconsistency_reported": "Inconsistent functions" in out["prove_err"] or "Inconsistent functions" in out["stderr"],
+            "ctxmix_reported": "Inconsistent contexts" in out["prove_err"] or "Inconsistent contexts" in out["stderr"],
             "prove_err": out["prove_err"], "traced": len(out["traced"])}
 
 
